@@ -21,8 +21,8 @@ META = {
     "rule": (
         "models: {abstract Node with modelType; Leaf_node, Branch(left: Node, right: "
         "Optional[Node], items: List[Node], perhaps: Optional[List[Leaf_node]], count: int, "
-        "notes: Optional[List[str]]), Special_branch(Branch) with an extra class-typed "
-        "property; Root(first: Node, remaining: Optional[List[Branch]], leaf: Leaf_node, "
+        "notes: Optional[List[str]]), Special_branch(Branch, Decorated) without own "
+        "properties, where the abstract Decorated contributes a class-typed property; Root(first: Node, remaining: Optional[List[Branch]], leaf: Leaf_node, "
         "tag: str)} in 3 property orders (class-typed properties first / interleaved / "
         "last) and with an implementation-specific `label_or_default` declared on the "
         "abstract class; instances: every graph built from per-type value menus up to "
@@ -35,7 +35,7 @@ META = {
         "value or the default of the snippet; non-trivial = graphs with >= 3 nodes"
     ),
     "bounds": {
-        "quick": "depth 2 for Branch (all combinations), Root over depth-1 nodes; 3 property orders",
+        "quick": "depth 2 for Branch (all combinations) and Special_branch (over 3 nodes), Root over depth-1 nodes; 3 property orders",
         "thorough": "depth 2 for Branch and Special_branch, Root over depth-2 left spines (first two values per menu for lists at depth 2); 6 property orders",
     },
     "assumptions": [
@@ -113,7 +113,10 @@ def model(order: int) -> sdk.Spec:
             ),
             sdk.Cls("Leaf_node", [], bases=["Node"]),
             sdk.Cls("Branch", _ordered(branch_props, order), bases=["Node"]),
-            sdk.Cls("Special_branch", [("special", "Optional[Leaf_node]")], bases=["Branch"]),
+            # a second, abstract parent which contributes a class-typed property to a
+            # class without own properties (multiple inheritance)
+            sdk.Cls("Decorated", [("special", "Optional[Leaf_node]")], abstract=True),
+            sdk.Cls("Special_branch", [], bases=["Branch", "Decorated"]),
             sdk.Cls("Root", _ordered(root_props, order)),
         ]
     )
@@ -183,9 +186,8 @@ def instances(spec: sdk.Spec, tier: str) -> Iterator[Dict[str, Any]]:
         yield instance
     for instance in branches(spec, nodes1, "Branch", reduced):
         yield instance
-    if tier == "thorough":
-        for instance in branches(spec, nodes1[:6], "Special_branch", reduced):
-            yield instance
+    for instance in branches(spec, nodes1[:6] if tier == "thorough" else nodes1[:3], "Special_branch", reduced):
+        yield instance
     # roots
     firsts = nodes1
     remaining = [None] + list_menu(depth1[:3] if tier == "quick" else depth1)
